@@ -296,6 +296,8 @@ pub struct Inner {
     pub pct_changes: Vec<u64>,
     pub shadow: Vec<u64>,
     pub drops: Vec<u32>,
+    pub tag_drops: Vec<u32>,
+    pub tag_made: Vec<u32>,
     /// (lid index) units: leaves that belong to one owned unit share a unit id (for C09)
     pub unit_of: Vec<Option<usize>>,
     pub monitors_on: bool,
@@ -610,8 +612,10 @@ impl Inner {
                             }
                             if self.locks[lid].excl.is_some() {
                                 self.locks[lid].excl = None;
-                            } else if let Some(pos) = self.locks[lid].shared.iter().position(|&x| x == t) {
-                                self.locks[lid].shared.remove(pos);
+                            } else {
+                                // an exclusive release of a lock that is only held shared wipes the
+                                // lock word (what parking_lot does): every reader's hold is gone
+                                self.locks[lid].shared.clear();
                             }
                             self.note_rel(t, lid, false, ok);
                         }
@@ -688,6 +692,7 @@ pub struct RunOutcome {
     pub trace: Vec<(u8, bool)>,
     pub stats: Stats,
     pub drops: Vec<u32>,
+    pub tag_drops: Vec<u32>,
     pub final_owner: Vec<(Option<Tid>, Vec<Tid>)>,
     pub api_log: Vec<(Tid, u32, ApiKind, u32)>,
 }
@@ -734,6 +739,8 @@ impl Sched {
                 pct_changes,
                 shadow: vec![0; nlocks],
                 drops: vec![0; nlocks],
+                tag_drops: Vec::new(),
+                tag_made: Vec::new(),
                 unit_of: vec![None; nlocks],
                 monitors_on: true,
                 rr_next: 0,
@@ -868,6 +875,7 @@ impl Sched {
             trace: std::mem::take(&mut g.trace),
             stats: g.stats.clone(),
             drops: g.drops.clone(),
+            tag_drops: g.tag_drops.clone(),
             final_owner: g.owner_table(),
             api_log: std::mem::take(&mut g.api_log),
         }
